@@ -254,7 +254,7 @@ func (exp *exporter) XHTMLandEPUBcommonHeader(w io.Writer) {
 	if ctx.Format == "epub" && epub3 {
 		fmt.Fprint(w, "<?xml version=\"1.0\" encoding=\"utf-8\"?>\n")
 		xmlnsepub = "xmlns:epub=\"http://www.idpf.org/2007/ops\" "
-		xmlnsepub += fmt.Sprintf("xml:lang=\"%s\" ", ctx.Params["lang"])
+		xmlnsepub += fmt.Sprintf("xml:lang=\"%s\" ", html.EscapeString(ctx.Params["lang"]))
 	}
 	if ctx.Format == "epub" && epub3 ||
 		ctx.Format == "xhtml" && xhtml5 {
@@ -262,7 +262,7 @@ func (exp *exporter) XHTMLandEPUBcommonHeader(w io.Writer) {
 	} else {
 		fmt.Fprint(w, "<!DOCTYPE html PUBLIC \"-//W3C//DTD XHTML 1.1//EN\" \"http://www.w3.org/TR/xhtml11/DTD/xhtml11.dtd\">\n")
 	}
-	fmt.Fprintf(w, "<html xmlns=\"http://www.w3.org/1999/xhtml\" %slang=\"%s\">\n", xmlnsepub, ctx.Params["lang"])
+	fmt.Fprintf(w, "<html xmlns=\"http://www.w3.org/1999/xhtml\" %slang=\"%s\">\n", xmlnsepub, html.EscapeString(ctx.Params["lang"]))
 	fmt.Fprint(w, "  <head>\n")
 	if ctx.Format == "epub" && epub3 {
 		fmt.Fprint(w, "    <meta charset=\"utf-8\" />\n")
@@ -281,7 +281,7 @@ func (exp *exporter) XHTMLdocumentHeader(w io.Writer, title string) {
 		fmt.Fprintf(w, "    <title>%s</title>\n", title)
 	}
 	if favicon, ok := ctx.Params["xhtml-favicon"]; ok && ctx.Format == "xhtml" {
-		fmt.Fprintf(w, "    <link rel=\"shortcut icon\" type=\"image/x-icon\" href=\"%s\" />\n", favicon)
+		fmt.Fprintf(w, "    <link rel=\"shortcut icon\" type=\"image/x-icon\" href=\"%s\" />\n", html.EscapeString(favicon))
 	}
 	switch ctx.Format {
 	case "epub":
@@ -290,7 +290,7 @@ func (exp *exporter) XHTMLdocumentHeader(w io.Writer, title string) {
 		}
 	case "xhtml":
 		if xhtmlcss, ok := ctx.Params["xhtml-css"]; ok {
-			fmt.Fprintf(w, "    <link rel=\"stylesheet\" href=\"%s\" />\n", xhtmlcss)
+			fmt.Fprintf(w, "    <link rel=\"stylesheet\" href=\"%s\" />\n", html.EscapeString(xhtmlcss))
 		}
 	}
 	fmt.Fprint(w, `  </head>
